@@ -347,6 +347,9 @@ func (SendReqScenario) Execute(sim *sched.Sim, ci interface{}, prop string, race
 			h.Violate("C19", "extension-callbacks", "", fmt.Sprintf("callbacks got %v, expected %v each; %s", exts, want.Ext, desc))
 		}
 	}
+	// (the release of the inbox subscription is not visible on the scripted
+	// connection, whose *nats.Subscription values are not backed by a client:
+	// it is checked in tier B, over real connections)
 	out := &Outcome{Faults: map[string]int{"inbox-channel-full-drop": slow}, Evals: 1, SimTime: slept}
 	if c.FailSub {
 		out.Faults["subscribe-error"] = 1
